@@ -214,7 +214,8 @@ def _ca_inputs(st, interp):
         a = args[0].expr
         return z3.If(a == iso1, ab1, ab2)
     env = VObj("Env", {})
-    return [self, env], {"exposure": st.fresh("exposure", z3.RealSort()), "rest_times": VTuple([0, 1]),
+    C["env"], C["exposure"], C["rest_times"] = env, st.fresh("exposure", z3.RealSort()), VTuple([0, 1])
+    return [self, env], {"exposure": C["exposure"], "rest_times": C["rest_times"],
                          "abundance": VBuiltin("abundance", abundance)}, C
 
 
@@ -232,6 +233,10 @@ def _ca_post(st, interp, C, res):
     if res.outcome == "raise":
         st.oblige("never-raises", False, kind="raises", info={"exc": res.exc})
         return
+    a = C["self"].attrs
+    # decay_time and the table printer read these back: the calculation must record what it was asked for
+    st.oblige("post.the sample records the environment, exposure and rest times of this calculation",
+              z3.BoolVal(a.get("environment") is C["env"] and a.get("exposure") is C["exposure"] and a.get("rest_times") is C["rest_times"]))
     act = C["self"].attrs["activity"]
     ok = isinstance(act, VDict) and len(act.entries) == 1 and act.entries[0][0] is PRODUCT
     st.oblige("post.one accumulated entry for the common product", z3.BoolVal(ok))
